@@ -20,15 +20,24 @@ pub struct C16;
 
 /// Signature of an abnormal termination: the panic call site and the message shape.
 pub fn panic_sig(p: &str) -> String {
-    // "path:line:col: message" -> keep path:line and the first words of the message
+    // "[report rendering: ]path:line:col: message" -> path:line and the first words of the message
+    let (prefix, p) = match p.strip_prefix("report rendering: ") {
+        Some(rest) => ("report-rendering:", rest),
+        None => ("", p),
+    };
     let mut parts = p.splitn(2, ": ");
     let loc = parts.next().unwrap_or("");
     let msg = parts.next().unwrap_or("");
     let loc2: Vec<&str> = loc.rsplitn(2, ':').collect(); // drop column
     let loc = loc2.last().copied().unwrap_or(loc);
     let loc = loc.rsplit("/repo/").next().unwrap_or(loc);
+    // dependencies: keep crate directory and file, not the registry path
+    let loc = match loc.find("/registry/src/") {
+        Some(i) => loc[i + "/registry/src/".len()..].splitn(2, '/').nth(1).unwrap_or(loc),
+        None => loc,
+    };
     let msg: String = strip_digits(msg).split_whitespace().take(6).collect::<Vec<_>>().join(" ");
-    format!("panic:{loc}:{msg}")
+    format!("panic:{prefix}{loc}:{msg}")
 }
 
 fn nesting(c: &mut Choices<'_>) -> String {
@@ -66,7 +75,7 @@ impl Property for C16 {
                 Tier::Thorough => 400_000,
             },
             max_bytes: 512,
-            timeout: Duration::from_secs(20),
+            timeout: Duration::from_secs(6),
         }
     }
     fn rule(&self) -> &'static str {
@@ -77,6 +86,34 @@ impl Property for C16 {
             "in-process Session::format + FormatReportFormatter is what the binary executes; replay and thorough also run the real binary and require exit status 0 or 1",
             "hangs are reported as inconclusive, never as violations",
         ]
+    }
+    fn enum_len(&self, g: &GenCtx) -> usize {
+        grid_len(g, 60_000, usize::MAX)
+    }
+    fn enum_case(&self, g: &GenCtx, i: usize) -> Option<Value> {
+        // grid cells under a mutation that is a pure function of the cell
+        let n = self.enum_len(g);
+        let space = ConfSpace {
+            max_extra: 4,
+            ..ConfSpace::default()
+        };
+        let cell = grid_pick(g, "C16", n, i, &space, true);
+        let bytes = crate::gen::grid::byte_stream(&format!("{}/mut", cell.cell), 256);
+        let mut c = Choices::new(&bytes);
+        let (text, muts) = if c.chance(3, 4) {
+            let k = 1 + c.below(4);
+            mutate(&cell.src.text, &mut c, k)
+        } else {
+            (cell.src.text.clone(), vec!["relayout"])
+        };
+        let mut opts = cell.opts.clone();
+        if c.chance(1, 3) {
+            opts.push(("error_on_line_overflow".into(), "true".into()));
+            if c.flip() {
+                opts.push(("error_on_unformatted".into(), "true".into()));
+            }
+        }
+        Some(json!({"src": text, "opts": opts_to(&opts), "origin": cell.src.origin, "mutations": muts, "cell": cell.cell}))
     }
     fn generate(&self, c: &mut Choices<'_>, g: &GenCtx) -> Value {
         let mode = c.weighted(&[6, 3, 1]);
